@@ -167,22 +167,26 @@ def correspondence(ctx):
         if i < len(fz):
             kind, a = fz[i]
         b = (a[0] + rng.randint(1, 2), rng.randint(0, 5), rng.randint(0, 5))
+        # hand-written reading of the requirement on release versions first (GemRequirement is part of the code under
+        # test); GemRequirement.satisfied_by as a second opinion
         if kind == "tilde3":
-            e, bd = "~> " + rel(*a), [a]
+            e, bd, f = "~> " + rel(*a), [a], (lambda p: a <= p < (a[0], a[1] + 1, 0))
         elif kind == "tilde2":
-            e, bd = "~> %d.%d" % a[:2], [(a[0], a[1], 0)]
+            e, bd, f = "~> %d.%d" % a[:2], [(a[0], a[1], 0)], (lambda p: (a[0], a[1], 0) <= p < (a[0] + 1, 0, 0))
         elif kind == "interval":
-            e, bd = ">= %s, < %s" % (rel(*a), rel(*b)), [a, b]
+            e, bd, f = ">= %s, < %s" % (rel(*a), rel(*b)), [a, b], (lambda p: a <= p < b)
         elif kind == "exact":
-            e, bd = "= " + rel(*a), [a]
+            e, bd, f = "= " + rel(*a), [a], (lambda p: p == a)
         elif kind == "ge":
-            e, bd = ">= " + rel(*a), [a]
+            e, bd, f = ">= " + rel(*a), [a], (lambda p: p >= a)
         else:
             m = (a[0], a[1] + 7, 0)
             b2 = (a[0] + 3, 0, 0)
-            e, bd = ">= %s, < %s, != %s" % (rel(*a), rel(*b2), rel(*m)), [a, b2, m]
-        req = G.GemRequirement.from_string(e)
+            e, bd, f = ">= %s, < %s, != %s" % (rel(*a), rel(*b2), rel(*m)), [a, b2, m], (lambda p, m=m, b2=b2: a <= p < b2 and p != m)
         check(ctx, "gem", e, VR.GemVersionRange.from_native, V.RubygemsVersion,
+              lambda t, f=f: f(tuple(int(i) for i in t.split("."))), bd, kind not in ("exact", "ge"))
+        req = G.GemRequirement.from_string(e)
+        check(ctx, "gem-native", e, VR.GemVersionRange.from_native, V.RubygemsVersion,
               lambda t: req.satisfied_by(G.GemVersion(t)), bd, kind not in ("exact", "ge"))
     # ---------------- pypi
     rng = ctx.rng("c06", "pypi")
@@ -216,18 +220,23 @@ def correspondence(ctx):
             d = (c[0] + 1, 0, 0)
             lo, hi = rng.choice("[("), rng.choice("])")
             kind = rng.choice(["interval", "exact", "lower", "upper", "two"])
+            inlo = (lambda p, x: p >= x) if lo == "[" else (lambda p, x: p > x)
+            inhi = (lambda p, x: p <= x) if hi == "]" else (lambda p, x: p < x)
             if kind == "interval":
-                e, bd = "%s%s,%s%s" % (lo, rel(*a), rel(*b), hi), [a, b]
+                e, bd, f = "%s%s,%s%s" % (lo, rel(*a), rel(*b), hi), [a, b], (lambda p: inlo(p, a) and inhi(p, b))
             elif kind == "exact":
-                e, bd = "[%s]" % rel(*a), [a]
+                e, bd, f = "[%s]" % rel(*a), [a], (lambda p: p == a)
             elif kind == "lower":
-                e, bd = "%s%s,)" % (lo, rel(*a)), [a]
+                e, bd, f = "%s%s,)" % (lo, rel(*a)), [a], (lambda p: inlo(p, a))
             elif kind == "upper":
-                e, bd = "(,%s%s" % (rel(*a), hi), [a]
+                e, bd, f = "(,%s%s" % (rel(*a), hi), [a], (lambda p: inhi(p, a))
             else:
-                e, bd = "%s%s,%s%s,[%s,%s)" % (lo, rel(*a), rel(*b), hi, rel(*c), rel(*d)), [a, b, c, d]
+                e, bd, f = "%s%s,%s%s,[%s,%s)" % (lo, rel(*a), rel(*b), hi, rel(*c), rel(*d)), [a, b, c, d], \
+                    (lambda p: (inlo(p, a) and inhi(p, b)) or c <= p < d)
+            # hand-written reading of the interval notation first (maven.VersionRange is part of the code under test)
+            check(ctx, sname, e, rcls.from_native, vcls, lambda t, f=f: f(tuple(int(i) for i in t.split("."))), bd, kind in ("interval", "two"))
             mr = M.VersionRange(e)
-            check(ctx, sname, e, rcls.from_native, vcls, lambda t: M.Version(t) in mr, bd, kind in ("interval", "two"))
+            check(ctx, sname + "-native", e, rcls.from_native, vcls, lambda t: M.Version(t) in mr, bd, kind in ("interval", "two"))
     # ---------------- conan
     rng = ctx.rng("c06", "conan")
     fz = forced(["tilde", "caret"])
@@ -237,18 +246,24 @@ def correspondence(ctx):
         if i < len(fz):
             kind, a = fz[i]
         b = (a[0] + rng.randint(1, 2), rng.randint(0, 5), rng.randint(0, 5))
+        # hand-written reading of conan's notation on release versions (the library's own conan VersionRange is the
+        # code under test, so it cannot be the oracle; it is run as a second opinion below)
         if kind == "tilde":
-            e, bd = "~" + rel(*a), [a]
+            e, bd, f = "~" + rel(*a), [a], (lambda p: a <= p < (a[0], a[1] + 1, 0))
         elif kind == "caret":
-            e, bd = "^" + rel(*a), [a]
+            up = (a[0] + 1, 0, 0) if a[0] > 0 else ((0, a[1] + 1, 0) if a[1] > 0 else (0, 0, a[2] + 1))
+            e, bd, f = "^" + rel(*a), [a, up], (lambda p, up=up: a <= p < up)
         elif kind == "interval":
-            e, bd = ">=%s <%s" % (rel(*a), rel(*b)), [a, b]
+            e, bd, f = ">=%s <%s" % (rel(*a), rel(*b)), [a, b], (lambda p: a <= p < b)
         elif kind == "exact":
-            e, bd = "=" + rel(*a), [a]
+            e, bd, f = "=" + rel(*a), [a], (lambda p: p == a)
         else:
-            e, bd = ">=" + rel(*a), [a]
+            e, bd, f = ">=" + rel(*a), [a], (lambda p: p >= a)
+        check(ctx, "conan", e, VR.ConanVersionRange.from_native, V.ConanVersion,
+              lambda t, f=f: f(tuple(int(i) for i in t.split("."))), bd, kind in ("tilde", "caret", "interval"))
         cr = ConanRange(e)
-        check(ctx, "conan", e, VR.ConanVersionRange.from_native, V.ConanVersion, lambda t: V.ConanVersion(t) in cr, bd, kind in ("tilde", "caret", "interval"))
+        check(ctx, "conan-native", e, VR.ConanVersionRange.from_native, V.ConanVersion, lambda t: V.ConanVersion(t) in cr, bd,
+              kind in ("tilde", "caret", "interval"))
     # ---------------- nginx (hand-written reading of the notation)
     rng = ctx.rng("c06", "nginx")
     fz = forced(["dash", "plus", "two"])
